@@ -23,7 +23,10 @@
 (*   Doc     ::= Header? Misc* Element Misc*                                   *)
 (*   Header  ::= "<?xml" (S Attr)* S? "?>"                                     *)
 (*   Misc    ::= S | Comment                                                   *)
-(*   Comment ::= "<!--" body "-->"     body without "--", not ending in "-"    *)
+(*   Comment ::= "<!--" body "-->"     the comment ends at the FIRST "-->" that  *)
+(*                                     begins at or after the end of the opener *)
+(*                                     (dash runs in the body are body; "--->"  *)
+(*                                     ends the comment at its last two dashes) *)
 (*   Element ::= "<" Name (S Attr)* S? "/>"                                    *)
 (*             | "<" Name (S Attr)* S? ">" Content "</" Name S? ">"            *)
 (*   Attr    ::= Name S? "=" S? ( '"' [^"<&\]* '"' | "'" [^'<&\]* "'" )        *)
@@ -115,16 +118,22 @@ IsBare(t) == t.child = <<>> /\ t.content = <<>>                      \* may be w
 \*   we    whitespace before the '>' of an end tag: 0 none | 1 space
 \*   wc    whitespace in content and between top-level items: 0 none | 1 one space | 2 newline + indentation
 \*   cm    comments: 0 none | 1 before the first and after the last item | 2 between items (and inside bare
-\*         <a></a>) | 3 everywhere | 4 everywhere, with bodies that begin with ">" or "->"
+\*         <a></a>) | 3 everywhere | 4 everywhere, with bodies that begin with ">" or "->" | 5 everywhere, with bodies that hold
+\*         dash runs (in the middle, and at the end so that 4 or 5 dashes stand before the closing '>')
 \*   tp    position of the text run among the children: 0 first | 1 last | 2 after the first child
 ChoiceSpace == [hdr : 0..3, q1 : {"d", "s"}, q2 : {"d", "s"}, rev : BOOLEAN, selfc : BOOLEAN,
-            wt : 0..2, we : 0..1, wc : 0..2, cm : 0..4, tp : 0..2]
+            wt : 0..2, we : 0..1, wc : 0..2, cm : 0..5, tp : 0..2]
 Plain == [hdr |-> 0, q1 |-> "d", q2 |-> "d", rev |-> FALSE, selfc |-> TRUE, wt |-> 0, we |-> 0, wc |-> 0, cm |-> 0, tp |-> 0]
 
 \* the k-th comment of a document (bodies chosen to look like markup, to hold dashes and quotes)
 CommentBodies == << <<" ","c"," ">>, <<"<","b","/",">">>, <<>>, <<"a","-","b"," ",">","\"","'">>, <<"<","/","a",">">> >>
-GtBodies == << <<">">>, <<"-", ">", " ", "x">> >>      \* legal bodies ("--" does not occur, the last character is no "-")
-Comment(c, k) == <<"<","!","-","-">> \o (IF c.cm = 4 THEN GtBodies[1 + (k % Len(GtBodies))] ELSE CommentBodies[1 + (k % Len(CommentBodies))])
+GtBodies == << <<">">>, <<"-", ">", " ", "x">> >>
+DashBodies == << <<"-","-","x","-","-","-">>,              \* banner style: with the "-->" an odd run of 5 dashes closes the comment
+                 <<"y"," ","-","-"," ","z","-","-">>,      \* "--" inside the body, an even run of 4 dashes at the end
+                 <<"-">>,                                  \* <!----->
+                 <<"x","-",">","y","-","-","-">> >>        \* "->" inside, odd run at the end
+Comment(c, k) == <<"<","!","-","-">> \o (CASE c.cm = 4 -> GtBodies[1 + (k % Len(GtBodies))] [] c.cm = 5 -> DashBodies[1 + (k % Len(DashBodies))]
+                                               [] OTHER -> CommentBodies[1 + (k % Len(CommentBodies))])
                  \o <<"-","-",">">>
 
 Indent(d) == [i \in 1..(2 * d) |-> " "]
@@ -161,10 +170,10 @@ Body(items, c, d, k) ==
   LET n == Len(items)
       w == ContWs(c, d)
       cmt(j) == Comment(c, k + j) \o w
-      lead  == IF c.cm \in {1, 3, 4} THEN w \o cmt(0) ELSE w
-      mid(j) == IF c.cm \in {2, 3, 4} THEN w \o cmt(j) ELSE w
-      trail == (IF c.cm \in {1, 3, 4} THEN w \o Comment(c, k + n) ELSE <<>>) \o (IF d > 0 THEN ContWs(c, d - 1) ELSE ContWs(c, 0))
-  IN IF n = 0 THEN (IF c.cm \in {2, 3, 4} THEN w \o Comment(c, k) \o ContWs(c, IF d > 0 THEN d - 1 ELSE 0) ELSE IF c.wc = 0 THEN <<>> ELSE ContWs(c, IF d > 0 THEN d - 1 ELSE 0))
+      lead  == IF c.cm \in {1, 3, 4, 5} THEN w \o cmt(0) ELSE w
+      mid(j) == IF c.cm \in {2, 3, 4, 5} THEN w \o cmt(j) ELSE w
+      trail == (IF c.cm \in {1, 3, 4, 5} THEN w \o Comment(c, k + n) ELSE <<>>) \o (IF d > 0 THEN ContWs(c, d - 1) ELSE ContWs(c, 0))
+  IN IF n = 0 THEN (IF c.cm \in {2, 3, 4, 5} THEN w \o Comment(c, k) \o ContWs(c, IF d > 0 THEN d - 1 ELSE 0) ELSE IF c.wc = 0 THEN <<>> ELSE ContWs(c, IF d > 0 THEN d - 1 ELSE 0))
      ELSE lead \o Concat([j \in 1..n |-> (IF j = 1 THEN <<>> ELSE mid(j)) \o items[j]]) \o trail
 
 RECURSIVE RenderNode(_, _, _)
@@ -190,7 +199,7 @@ Relevant(t, c) ==
   /\ ((\A x \in N : x.content = <<>> \/ Len(x.child) < 2) => c.tp # 2)
   \* the two constructs that get an input class of their own (DocClass) are not combined in one document, so that a
   \* reader that rejects one of them fails one class only
-  /\ (c.cm = 4 => c.we = 0)
+  /\ (c.cm \in {4, 5} => c.we = 0)
 
 \* ---------------------------------------------------------------------------
 \* ParseDoc: strict recogniser / parser of the subset
@@ -211,9 +220,9 @@ ValueEnd(s, i, q) ==                        \* index of the closing quote, 0 if 
 RECURSIVE RunEnd(_, _)
 RunEnd(s, i) == IF i > Len(s) \/ s[i] = "<" THEN i ELSE RunEnd(s, i + 1)        \* end of character data
 RECURSIVE CommentEnd(_, _)
-CommentEnd(s, i) ==                         \* i: first index of the body; result: index after "-->", 0 if malformed
-  IF i > Len(s) \/ s[i] \notin Char THEN 0
-  ELSE IF s[i] = "-" /\ At(s, i + 1) = "-" THEN (IF At(s, i + 2) = ">" THEN i + 3 ELSE 0)
+CommentEnd(s, i) ==                         \* i: first index after the opener "<!--"; result: index after the first "-->" that
+  IF i > Len(s) \/ s[i] \notin Char THEN 0    \* begins at an index >= i; 0 if there is none (or a character outside Char comes first)
+  ELSE IF s[i] = "-" /\ At(s, i + 1) = "-" /\ At(s, i + 2) = ">" THEN i + 3
   ELSE CommentEnd(s, i + 1)
 
 TrimL(r) == LET K == {k \in DOMAIN r : r[k] \notin WS} IN
@@ -301,9 +310,14 @@ ParseDoc(s) ==
      ELSE IF z # Len(s) + 1 THEN NotXml
      ELSE [ok |-> TRUE, tree |-> DocNode(<<r.v>>), ew |-> r.ew]
 
-\* input class of a document s of the subset (p = ParseDoc(s)).  "<!--" occurs in such a document only where a comment begins.
+\* input class of a document s of the subset (p = ParseDoc(s)); the comment-related parts are lexical (exact for the generated
+\* documents, whose comment bodies do not contain "<!--").
 GtComment(s) == \E i \in DOMAIN s : HasAt(s, i, <<"<","!","-","-",">">>) \/ HasAt(s, i, <<"<","!","-","-","-",">">>)
+\* three or more dashes directly before a '>' that are not (partly) the dashes of an opener: a comment closed by a dash run
+OpenerAt(s, j) == j >= 1 /\ HasAt(s, j, <<"<","!","-","-">>)
+DashEnd(s) == \E i \in DOMAIN s : HasAt(s, i, <<"-","-","-",">">>) /\ ~OpenerAt(s, i - 2) /\ ~OpenerAt(s, i - 3)
 DocClass(p, s) == "subset" \o (IF p.ew THEN ",ws-in-end-tag" ELSE "") \o (IF GtComment(s) THEN ",comment-begins-with-gt" ELSE "")
+                  \o (IF DashEnd(s) THEN ",comment-ends-with-dash-run" ELSE "")
 
 \* ---------------------------------------------------------------------------
 \* LexClass: where does an arbitrary character sequence end?  A tolerant lexical scan; only the part before the first
